@@ -31,10 +31,10 @@ import (
 // ---------- throw-away PKI in a temp dir
 
 type pki struct {
-	dir                                        string
+	dir                                       string
 	caPEM, certPEM, keyPEM, cert2PEM, key2PEM []byte
-	otherCert                                  *x509.Certificate
-	tlsCert                                    tls.Certificate
+	otherCert                                 *x509.Certificate
+	tlsCert                                   tls.Certificate
 }
 
 func mkCert(cn string) (certPEM, keyPEM []byte, cert *x509.Certificate) {
